@@ -27,6 +27,9 @@ No interpretation happens here except:
     (no mutation, no yield), (ii) B reads no name that A assigns, (iii) a name that A assigns and B does
     not assign (unconditionally) is read nowhere outside A.  The class C is recorded in `catches_<f>`; that
     A raises nothing but C must be argued in the template.
+  * `x.ravel()[:] = e` (filling a fresh array through its flat view) becomes `x = fill_flat(x, e)`, the
+    specification of "fill_flat" being the array of x's shape holding the items of e in C order; admitted
+    only for a provably fresh, un-escaped array x (np.empty(...) is C-contiguous, so ravel() is a view).
   * `[e for a, b in it]` becomes ECompT (unpacking each element); `a[:, k]` the builtin "index[:,]"."""
 import ast
 import os
@@ -60,7 +63,10 @@ def const(v):
     raise Unsupported("constant %r" % (v,))
 
 
-BIN = {ast.Add: "Add", ast.Sub: "Sub", ast.Mult: "Mul", ast.Div: "Div", ast.FloorDiv: "FloorDiv", ast.Mod: "Mod"}
+BIN = {ast.Add: "Add", ast.Sub: "Sub", ast.Mult: "Mul", ast.Div: "Div", ast.FloorDiv: "FloorDiv", ast.Mod: "Mod",
+       ast.Pow: "Pow"}
+# module attributes used as opaque constants (passed on to library functions, never computed with)
+MODULE_CONSTS = {"np.inf": "<np.inf>"}
 CMP = {ast.Lt: "CLt", ast.LtE: "CLe", ast.Gt: "CGt", ast.GtE: "CGe", ast.Eq: "CEq", ast.NotEq: "CNe"}
 
 
@@ -115,7 +121,14 @@ def first_evaluated(node):
     return None
 
 
+# functions that change the state of their (single, plain name) argument: next(generator)
+STATEFUL_FUNCS = {"next"}
+
+
 def is_stateful_call(node):
+    if (isinstance(node, ast.Call) and isinstance(node.func, ast.Name) and node.func.id in STATEFUL_FUNCS
+            and len(node.args) == 1 and isinstance(node.args[0], ast.Name) and not node.keywords):
+        return True
     return (isinstance(node, ast.Call) and isinstance(node.func, ast.Attribute)
             and node.func.attr in STATEFUL_METHODS)
 
@@ -153,7 +166,7 @@ class Translator:
         pos = list(e.args)
         if is_stateful_call(e):
             raise Unsupported("state-changing call %s not in the first-evaluated position of its statement"
-                              % e.func.attr)
+                              % ast.dump(e.func)[:60])
         if any(isinstance(a, ast.Starred) for a in pos) or any(k.arg is None for k in e.keywords):
             raise Unsupported("* / ** in call")
         if (isinstance(f, ast.Name) and f.id in ("all", "any", "tuple", "list") and len(pos) == 1
@@ -262,6 +275,8 @@ class Translator:
         if isinstance(e, ast.Call):
             return self.call(e)
         if isinstance(e, ast.Attribute):
+            if self.dotted(e) in MODULE_CONSTS:
+                return "(EConst (VS %s))" % cstr(MODULE_CONSTS[self.dotted(e)])
             if self.dotted(e) is not None:
                 raise Unsupported("module attribute " + self.dotted(e))
             return "(ECall %s %s)" % (cstr("attr:" + e.attr), lst([expr(e.value)]))
@@ -324,16 +339,20 @@ class Translator:
         if node is None:
             return []
         call = node
-        recv = call.func.value
+        if isinstance(call.func, ast.Name):          # next(h)
+            recv, fname, cargs = call.args[0], call.func.id, []
+            if call.func.id in self.locals:
+                raise Unsupported("%s is rebound in the function" % call.func.id)
+        else:
+            recv, fname, cargs = call.func.value, "meth:" + call.func.attr, call.args
         if not isinstance(recv, ast.Name) or recv.id in self.modules:
-            raise Unsupported("state-changing method %s on something that is not a plain name" % call.func.attr)
+            raise Unsupported("state-changing call %s on something that is not a plain name" % fname)
         if call.keywords or any(isinstance(a, ast.Starred) for a in call.args):
             raise Unsupported("keywords / * in a state-changing call")
         self.ntemp += 1
         tmp = "$%d" % self.ntemp
         self.handles.add(recv.id)
-        pre = "SCallSt %s %s %s %s" % (cstr(tmp), cstr(recv.id), cstr("meth:" + call.func.attr),
-                                       lst([self.expr(a) for a in call.args]))
+        pre = "SCallSt %s %s %s %s" % (cstr(tmp), cstr(recv.id), cstr(fname), lst([self.expr(a) for a in cargs]))
         new = ast.copy_location(ast.Name(id=tmp, ctx=ast.Load()), call)
         if pidx is None:
             setattr(parent, pfield, new)
@@ -436,6 +455,11 @@ class Translator:
                         raise Unsupported("attribute assignment on something other than self")
                     out.append("SSetAttr %s %s %s" % (cstr("self"), cstr(t.attr), self.expr(s.value)))
                     continue
+                if flat_fill_target(t) is not None:
+                    x = flat_fill_target(t)
+                    out.append("SAssign %s (ECall %s %s)" % (lst([cstr(x)]), cstr("fill_flat"),
+                                                             lst(["(EVar %s)" % cstr(x), self.expr(s.value)])))
+                    continue
                 if isinstance(t, ast.Subscript):
                     if not isinstance(t.value, ast.Name):
                         raise Unsupported("assignment into a compound object")
@@ -500,6 +524,16 @@ class Translator:
         return lst(out)
 
 
+def flat_fill_target(t):
+    """x.ravel()[:] = ...  ->  x"""
+    if (isinstance(t, ast.Subscript) and isinstance(t.slice, ast.Slice) and t.slice.lower is None
+            and t.slice.upper is None and t.slice.step is None and isinstance(t.value, ast.Call)
+            and isinstance(t.value.func, ast.Attribute) and t.value.func.attr == "ravel"
+            and not t.value.args and not t.value.keywords and isinstance(t.value.func.value, ast.Name)):
+        return t.value.func.value.id
+    return None
+
+
 def target_names(t):
     if isinstance(t, ast.Name):
         return [t.id]
@@ -517,7 +551,7 @@ def target_names(t):
 # are joined by intersection, loop bodies are iterated to a fixed point, and a loop body may not mutate
 # a name that occurs in the loop's iterable.
 FRESH_LIST_CALLS = {"list"}
-FRESH_ARRAY_CALLS = {"np.array", "np.unique"}      # always return a new array
+FRESH_ARRAY_CALLS = {"np.array", "np.unique", "np.empty"}      # always return a new array
 
 
 class Fresh:
@@ -534,6 +568,8 @@ class Fresh:
                 return "list"
             if self.tr.dotted(e.func) in FRESH_ARRAY_CALLS:
                 return "array"
+        if isinstance(e, ast.Call) and self.tr.dotted(e.func) == "np.empty":
+            return "array"       # also with dtype= / order= keywords
         return None
 
     def escaping(self, e, out):
@@ -588,6 +624,9 @@ class Fresh:
                 self.escaping(s.value, esc)
                 if isinstance(t, ast.Attribute):
                     self.drop(state, esc)      # self.a = v: v escapes into the object
+                elif flat_fill_target(t) is not None:
+                    self.drop(state, esc)
+                    self.need(state, flat_fill_target(t), ("array",), frozen, "filling through ravel()")
                 elif isinstance(t, ast.Subscript):
                     self.escaping(t.slice, esc)
                     x = t.value.id
@@ -600,6 +639,11 @@ class Fresh:
                     k = self.kind(s.value)
                     if k is not None and len(names) == 1:
                         state[names[0]] = k
+                    elif (isinstance(s.value, (ast.Tuple, ast.List)) and len(s.value.elts) == len(names) > 1
+                          and len(set(names)) == len(names)):
+                        for nm, el in zip(names, s.value.elts):       # a, b = [], []: each a fresh object
+                            if self.kind(el) in ("list", "array"):
+                                state[nm] = self.kind(el)
             elif isinstance(s, ast.AugAssign):
                 self.escaping(s.value, esc)
                 if isinstance(s.target, ast.Subscript):
@@ -708,11 +752,20 @@ def translate(path, names):
             if nyield and any(isinstance(x, ast.Return) for x in ast.walk(n)):
                 raise Unsupported("return inside a generator")
             for h in tr.handles:
-                # a handle is a parameter and, once its state-changing calls are hoisted, occurs nowhere else
-                if h not in params:
-                    raise Unsupported("state-changing method on %s, which is not a parameter" % h)
-                if any(isinstance(x, ast.Name) and x.id == h for x in ast.walk(n)):
-                    raise Unsupported("%s has state-changing calls and is also used otherwise (possible alias)" % h)
+                # a handle is a parameter, or a local assigned exactly once, at the top level of the function
+                # and before any loop, the result of a call (a new object: a generator); once its
+                # state-changing calls are hoisted it occurs nowhere else (no alias)
+                occ = [x for x in ast.walk(n) if isinstance(x, ast.Name) and x.id == h]
+                if h in params:
+                    if occ:
+                        raise Unsupported("%s has state-changing calls and is also used otherwise (possible alias)" % h)
+                else:
+                    tops = [b for b in n.body if isinstance(b, ast.Assign) and len(b.targets) == 1
+                            and isinstance(b.targets[0], ast.Name) and b.targets[0].id == h
+                            and isinstance(b.value, ast.Call)]
+                    if len(occ) != 1 or len(tops) != 1 or occ[0] is not tops[0].targets[0]:
+                        raise Unsupported("state-changing calls on %s, which is neither a parameter nor a local "
+                                          "bound once to the result of a call and used for nothing else" % h)
             if len(tr.handles) > 1:
                 raise Unsupported("several stateful parameters (they could be the same object)")
             Fresh(tr).block([s for s in n.body], {}, frozenset())
